@@ -35,6 +35,12 @@ def typed_labels(rng, names):
     return [l for l, v in names if v in TYPED_NAMES and rng.random() < 0.6]
 
 
+def big_names(rng, t):
+    """sibling-unique plain names for a large tree: a short stem plus the label (so that prefixes of one another occur)"""
+    stems = ["n", "k", "item", "x"]
+    return [[l, "%s%d" % (rng.choice(stems), l)] for l in gen.tree_labels(t)]
+
+
 def abs_path(t, names, sep, label):
     nm = dict((k, v) for k, v in names)
 
